@@ -137,15 +137,18 @@ def run(ctx):
         lat = [l for l in v.leaves if l.domain.startswith("sync") and l.fsm is None and l.kind == "assign" and l.inst == ""]
         lm = {key(l.target): (key(l.value), sorted(v.guard_keys(l, False))) for l in lat}
         ob3.instance("latched on access start", lm)
-        exp = {"byteenable": "avalon.byteenable", "writedata": "avalon.writedata", "burst_count": "avalon.burstcount"}
         gset = {tuple(g) for _, g in lm.values()}
-        for k_, e in exp.items():
-            if lm.get(k_, (None,))[0] != e:
-                ob3.refute("latch:%s" % k_, "%s is latched from %s, expected %s" % (k_, lm.get(k_, (None,))[0], e), None)
+        latched_from = {vv[0]: k_ for k_, vv in lm.items()}
+        for e in ("avalon.byteenable", "avalon.writedata", "avalon.burstcount"):
+            if e not in latched_from:
+                ob3.refute("latch:%s" % e, "%s is not latched at the start of an access (latched: %s)" % (e, sorted(latched_from)), None)
+        if latched_from.get("avalon.burstcount") != key(dc):
+            ob3.refute("latch:beat-counter", "avalon.burstcount is latched into %s but the burst states count beats with %s" % (latched_from.get("avalon.burstcount"), key(dc)), None)
         if len(gset) != 1:
             ob3.refute("latch-strobe", "the access registers are latched under different strobes: %s" % lm, None)
-        sw = [s for s in f.states if any(l.kind == "assign" and key(l.target) == "port.wdata.data" and key(l.value) == "writedata" for l in v.fsm_leaves(f, s))]
-        if not sw or not any(l.kind == "assign" and key(l.target) == "port.wdata.we" and key(l.value) == "byteenable" for l in v.fsm_leaves(f, sw[0])):
+        WD, BE = latched_from.get("avalon.writedata"), latched_from.get("avalon.byteenable")
+        sw = [s for s in f.states if any(l.kind == "assign" and key(l.target) == "port.wdata.data" and key(l.value) == WD for l in v.fsm_leaves(f, s))]
+        if not sw or not any(l.kind == "assign" and key(l.target) == "port.wdata.we" and key(l.value) == BE for l in v.fsm_leaves(f, sw[0])):
             ob3.refute("single-write", "the single-write state does not use the latched data and byte enables", None)
         else:
             ob3.instance("single write state", sw[0])
@@ -155,8 +158,8 @@ def run(ctx):
         if off is None or key(off) != key(Op(">>", (Sym("base_address"), Const(2)))):
             ob4.refute("offset", "address_offset is %s, expected base_address >> 2 for a 32-bit port" % (key(off) if off is not None else None), None)
         direct = [l for l in v.fsm_leaves(f, f.reset_state) if l.kind == "assign" and key(l.target) == "port.cmd.addr"]
-        la = lm.get("address", (None,))[0]
         want = key(Op("-", (Sym("avalon.address"), Sym("address_offset"))))
+        la = want if want in latched_from else None
         ob4.instance("addresses", {"direct": [key(l.value) for l in direct], "latched": la})
         if not direct or key(direct[0].value) != want or la != want:
             ob4.refute("address", "command address is %s (direct) / %s (latched), expected avalon.address - address_offset" % ([key(l.value) for l in direct], la), None)
